@@ -1,4 +1,5 @@
 import Yomm2.Props.C01c
+import Yomm2.Props.C13b
 /-!
 # A concrete instance of the end-to-end theorem (non-vacuity)
 
@@ -81,5 +82,14 @@ example : ∃ mr o, s0.registry.methods[0]? = some mr ∧
     simp only [s0, PState.registry, classes0, List.map_cons, List.map_nil, List.mem_cons, List.not_mem_nil, or_false] at hr
     rcases hr with rfl | rfl | rfl <;> decide
   · decide +kernel
+
+end Yomm2.Props.Examples
+
+namespace Yomm2.Props.Examples
+open Yomm2
+
+/-- C13 on the same registry: the kernel decodes what the encoder emits and finds the words `install` wrote -/
+example : ((decode (encode c0) (RoundTrip.msOf c0) [0, 1, 2]).toOption.map (fun d => d.toInstalled.data.toList)) =
+    s1.inst.map (fun i => i.data.toList) := by decide +kernel
 
 end Yomm2.Props.Examples
